@@ -101,9 +101,11 @@ CHECKS.update({
              'forms under a computed allowance, and independently with Richardson finite differences of the real kernel and predict. For the two closed-form '
              'routines (L2, memory-light) the statements of the gradient code itself are regenerated on every run (Gen.GradOps: the tensor program '
              'kernel_mat = dists**q, mul_/exp_/clamp_/pow_, mask = dists >= eps, tensor products, einsum difference) and gen_fgrad_eq_model proves that '
-             'this program returns exactly the closed-form gradient tensor; the driver runs it at Float next to the model.',
+             'this program returns exactly the closed-form gradient tensor; the driver runs it at Float next to the model. For the three autograd-based routines '
+             '(product, Lpq, sum-power) the closure handed to torch.autograd is regenerated (Gen.FwdOps) and gen_forward_eq_model proves that it evaluates the '
+             'closed-form kernel in general position (a masked pair is the constant 1); autograd itself is trusted.',
         note=TB + 'General position as in the property: distance (L2-type kernels) or every coordinate difference (coordinate-wise kernels) at least eps. Exact real arithmetic; rounding (incl. the unmasked self-term cancellation of '
-             'the expansion-distance kernels) is absorbed by a computed per-entry allowance. Translator tie for the L2 / memory-light gradient routines (Gen.GradOps); the autograd-based routines (product, Lpq, sum-power) are tied by the correspondence only. torch '
+             'the expansion-distance kernels) is absorbed by a computed per-entry allowance. Translator tie for the L2 / memory-light gradient routines (Gen.GradOps) and for the closures the autograd-based routines differentiate (Gen.FwdOps); torch.func.jacrev / autograd.functional.jacobian are trusted. torch '
              'autograd, cdist, solve, SVD are modelled, not verified.',
         technique='Lean 4 + Mathlib calculus (HasDerivAt / HasFDerivAt) over a scalar-generic executable model; gradient tensor programs regenerated from source by the AST translator and proved equal to the model; float64 correspondence with computed allowance; finite-difference oracle',
         ref='DESIGN.md §6 C04'),
